@@ -180,14 +180,25 @@ func checkErrorCodeMapping(p *core.Prog, r *core.Report) {
 	start := p.Field("reqctx", "RequestDetails", "ResolvedStartBlockNum")
 	plan := p.FuncObj(pkgPlan, "BuildTier1RequestPlan")
 	var okEdges []core.Edge
-	core.Instrs(bl, func(in ssa.Instruction) {
+	// (the tests may sit in a helper of the package that is handed the two numbers)
+	fieldOfV := func(v ssa.Value) *types.Var {
+		if f, _ := core.LoadedField(core.SkipConv(v)); f != nil {
+			return f
+		}
+		if cv := core.CallerValue(bl, v); cv != v {
+			f, _ := core.LoadedField(core.SkipConv(cv))
+			return f
+		}
+		return nil
+	}
+	core.InstrsDeep(bl, func(in ssa.Instruction) {
 		ifi, ok := in.(*ssa.If)
 		if !ok {
 			return
 		}
-		isStart := func(v ssa.Value) bool { f, _ := core.LoadedField(core.SkipConv(v)); return f == start }
+		isStart := func(v ssa.Value) bool { return fieldOfV(v) == start }
 		isStop := func(v ssa.Value) bool {
-			f, _ := core.LoadedField(core.SkipConv(v))
+			f := fieldOfV(v)
 			return f != nil && f.Name() == "StopBlockNum"
 		}
 		onT, onF, ok := core.CondRelation(ifi.Cond, isStart, isStop)
@@ -217,7 +228,7 @@ func checkErrorCodeMapping(p *core.Prog, r *core.Report) {
 		if !ok || k.Value == nil || k.Value.ExactString() != "0" {
 			return false
 		}
-		f, _ := core.LoadedField(core.SkipConv(bo.X))
+		f := fieldOfV(bo.X)
 		if f == nil || f.Name() != "StopBlockNum" {
 			return false
 		}
